@@ -141,6 +141,10 @@ theorem exact_step {P : Prog} {v v' : SV} {evs : List Tr} (hb : Basic v) (hi : E
     rw [hc] at hch
     exact .inr (exact_neutral (v := v) (by rw [hc]; rfl) rfl rfl rfl rfl rfl (by rw [hc]; rfl)
       (headIsRestore_of_chained hch) hi)
+  | enqAct hc =>
+    rw [hc] at hch
+    exact .inr (exact_neutral (v := v) (by rw [hc]; rfl) rfl rfl rfl rfl rfl (by rw [hc]; rfl)
+      (headIsRestore_of_chained hch) hi)
   | replace hc _ =>
     rw [hc] at hch
     exact .inr (exact_neutral (v := v) (by rw [hc]; rfl) rfl rfl rfl rfl rfl (by rw [hc]; rfl)
